@@ -13,7 +13,7 @@ from typing import Dict, List, Optional, Set, Tuple
 
 from ..cfg import CFG
 from ..model import AnalysisError
-from ..util import dotted, names_in, norm, short, walk_no_nested
+from ..util import flatten_boolop, dotted, names_in, norm, short, walk_no_nested
 from ..visitors import totality
 from .common_tristate import tri_state_rule
 
@@ -33,7 +33,19 @@ def decision_points(model, cls_q: str, callee: str) -> Set[Tuple[str, str]]:
             if isinstance(n, ast.Assign) and isinstance(n.targets[0], ast.Name):
                 assign.setdefault(n.targets[0].id, n.value)
             elif isinstance(n, ast.For) and isinstance(n.target, ast.Name):
-                loops[n.target.id] = n.iter
+                it = n.iter
+                # a loop over a local holding the materialised sequence (`xs = list(E)`, `xs = [] if c else list(E)`): the elements are E's
+                if isinstance(it, ast.Name):
+                    defs_ = [a.value for a in walk_no_nested(m.node) if isinstance(a, ast.Assign) and len(a.targets) == 1 and isinstance(a.targets[0], ast.Name) and a.targets[0].id == it.id]
+                    if len(defs_) == 1:
+                        v_ = defs_[0]
+                        if isinstance(v_, ast.IfExp):
+                            v_ = v_.orelse if (isinstance(v_.body, (ast.List, ast.Tuple)) and not v_.body.elts) else v_.body if (isinstance(v_.orelse, (ast.List, ast.Tuple)) and not v_.orelse.elts) else v_
+                        if isinstance(v_, ast.Call) and dotted(v_.func) in ("list", "tuple") and len(v_.args) == 1:
+                            v_ = v_.args[0]
+                        if isinstance(v_, ast.Call):
+                            it = v_
+                loops[n.target.id] = it
             elif isinstance(n, ast.For) and isinstance(n.target, ast.Tuple) and isinstance(n.iter, ast.Call) and dotted(n.iter.func) == "enumerate" and n.iter.args and isinstance(n.target.elts[-1], ast.Name):
                 loops[n.target.elts[-1].id] = n.iter.args[0]
             elif isinstance(n, ast.NamedExpr) and isinstance(n.target, ast.Name):
@@ -87,7 +99,11 @@ def check(ctx):
     # dynamic conversions are not refs on either side
     for q in (f"{REFS}.RefsExtractor.visit_conversion", f"{SCH}.SchemaBuilder.visit_conversion"):
         m = model.func(q)
-        ok = any(isinstance(n, ast.If) and norm(n.test) == "not dynamic" and any("resolve_conversion" in norm(s) for s in n.body) for n in walk_no_nested(m.node))
+        # every call of resolve_conversion is reached under `not dynamic` (an if, a guard clause, or the branch of a conditional expression)
+        from ..pathcond import parents_of as _po17, path_condition as _pc17
+        pm17 = _po17(m.node)
+        rc_calls = [c for c in walk_no_nested(m.node) if isinstance(c, ast.Call) and norm(c.func) == "self.resolve_conversion"]
+        ok = bool(rc_calls) and all("not dynamic" in {norm(x) for x in flatten_boolop(_pc17(m.node, c, pm17), ast.And)} for c in rc_calls)
         ctx.check(ok, "C17.R1", f"{q.split('.')[-2]}.visit_conversion:not-dynamic", m.node.body[0], "ref decision of visit_conversion is no longer restricted to non-dynamic conversions on this side", m, m.node, detail="if not dynamic: for ref_tp in self.resolve_conversion(tp)")
     # discriminated unions counted twice <-> oneOf sites
     ra = model.func(f"{REFS}.RefsExtractor.annotated")
